@@ -269,6 +269,9 @@ func (sh *shaper) shapeOf1(t types.Type) *Shape {
 	case *types.Named:
 		qn := qualName(tt.Origin())
 		if srt, ok := specialLeaf[qn]; ok && srt != "" {
+			if strings.HasPrefix(srt, "K_") {
+				sh.sortDecls[srt] = true
+			}
 			return leafShape(t, srt)
 		}
 		if qn == "sync.Map" {
